@@ -8,6 +8,16 @@ BASE = "cd /repo && /venv/bin/python -m pytest -ra -q -p no:cacheprovider --time
 
 # id -> dict(level, text, note, technique, design_ref, engine)
 CLAIMS = {
+ "C20": dict(
+  level="model_checking",
+  text="Version.tla defines Conv, SemLess (the property's precedence) and zero-padded ListLess; TLC checks the order "
+       "embedding SemLess <=> ListLess(Conv, Conv) for all 152100 pairs of the bounded domain (1..3 fields x labels x "
+       "pre-release numbers), Apalache proves it for unbounded field values at fixed shape and proves strict monotonicity of "
+       "(M<<24)+(m<<16)+(p<<8)+t for m,p,t < 256. Every domain version (emitted by TLC) and seeded versions with fields up to "
+       "300 go through the real converter; Conv/Order/Reject/Seq/SeqOrder/Default events are judged by TLC.",
+  note="Trusted: TLC, Apalache. Pairs with different field counts where the shorter has a label are outside 'coincides' (O3).",
+  technique="TLA+ spec (Version.tla) + TLC all-pairs model checking + Apalache unbounded arithmetic + TLC-emitted domain replayed into the real converter + TLC trace validation",
+  design_ref="DESIGN.md 4.14, 5 (C20)", engine="tlc"),
  "C07": dict(
   level="model_checking",
   text="Storage.tla pins the slot layout of both SoCs (SlotsDisjoint ASSUMEd and checked) and builds the expected image: "
